@@ -194,6 +194,11 @@ type ElemAddr struct {
 	Elem     types.Type
 }
 
+// ByteAddr: byte I of a byte slice modelled as the string S (loads only).
+type ByteAddr struct{ S, I Term }
+
+func (ByteAddr) isAddr() {}
+
 // GlobAddr: a package-level variable.
 type GlobAddr struct{ G *ssa.Global }
 
@@ -822,6 +827,9 @@ func (st *State) derefOK(a Addr) {
 }
 
 func (st *State) loadAt(a Addr, t types.Type) Val {
+	if ba, ok := a.(ByteAddr); ok {
+		return Sc{App(SInt, "str.to_code", App(SStr, "str.at", ba.S, ba.I))}
+	}
 	st.derefOK(a)
 	if g, ok := a.(GlobAddr); ok && theEngine != nil {
 		if v, ok := theEngine.immutableGlobal(g.G); ok {
@@ -844,6 +852,9 @@ func (st *State) loadAt(a Addr, t types.Type) Val {
 }
 
 func (st *State) storeAt(a Addr, t types.Type, v Val) {
+	if _, ok := a.(ByteAddr); ok {
+		bail("store into a byte slice element")
+	}
 	st.derefOK(a)
 	root, path, idx, dims := st.resolve(a)
 	ls := st.flatten(v)
